@@ -244,9 +244,10 @@ func c11(r *core.Run) {
 				case len(comps) == 1:
 					okc, why = ownKey(p, p.ProvAt(comps[0].Val, "", comps[0].At), h, 0)
 				case key == "storage.MsgDeleteFile":
+					// the owner component of a file key (merkle, owner, start): one of its text components is the signer
 					okc = false
 					for _, c := range comps {
-						if c.Verb == "%s" {
+						if c.Verb == "%s" && !okc {
 							okc, why = ownKey(p, p.ProvAt(c.Val, "", c.At), h, 0)
 						}
 					}
